@@ -98,6 +98,16 @@ const TOKEN_HOLES: &[(&str, &str, &[&str])] = &[
     ("error-type", "#[try_map(T, @@)]\nstruct S { a: i32 }", TYPE_FORMS),
     ("child_parents-type", "#[into(T)]\n#[child_parents(p: @@)]\nstruct S { #[child(p)] a: i32 }", TYPE_FORMS),
     ("where_clause", "#[map(T)]\n#[where_clause(@@)]\nstruct S<X> { a: X }", WHERE_FORMS),
+    // places where a member name / index / path is expected
+    ("rename-member", "#[map(T)]\nstruct S { #[map(@@)] a: i32 }", MEMBER_FORMS),
+    ("ghosts-key", "#[map(T)]\n#[ghosts(@@: { 1 })]\nstruct S { a: i32 }", MEMBER_FORMS),
+    ("child-path", "#[into(T)]\n#[child_parents(@@: P)]\nstruct S { #[child(@@)] a: i32 }", MEMBER_FORMS),
+    ("variant-rename", "#[map(T)]\nenum S { #[map(@@)] A, B }", MEMBER_FORMS),
+    ("vars-name", "#[map(T| vars(@@: { 1 }))]\nstruct S { a: i32 }", MEMBER_FORMS),
+    ("parent-member", "#[map(T)]\nstruct S { #[parent(@@, y)] p: P }", MEMBER_FORMS),
+];
+const MEMBER_FORMS: &[&str] = &[
+    "x", "r#type", "try", "dyn", "async", "await", "self", "Self", "super", "crate", "union", "auto", "macro_rules", "default", "_", "0", "1", "1u8", "0x1", "x.y", "x.0", "0.x", "1 .0", "1.0", "'a", "x y", "-1", "x::y",
 ];
 const META_FORMS: &[&str] = &[
     "inline", "inline(always)", "cfg(any(a, b))", "doc = \"x\"", "doc = concat!(\"a\", \"b\")", "doc = include_str!(\"x.md\")", "tracing::instrument(level = Level::DEBUG, fields(id = self.id))",
@@ -120,7 +130,7 @@ const EXPR_FORMS: &[&str] = &[
 const TYPE_FORMS: &[&str] = &[
     "i32", "m::T", "m::T<i32>", "m::T<'a>", "m::n::T<i32, 'a>", "T<i32>", "T::<i32>", "T<'a>", "T<'static>", "T<'_>", "T<1>", "T<{ 1 }>", "T<-1>", "T<A = B>", "T<A: B>", "<T as X>::Y", "[u8; 4]", "[u8]", "&'static str", "&mut T", "*const T", "dyn Tr", "dyn Tr + Send",
     "impl Tr", "fn(i32) -> i32", "(i32, i16)", "()", "!", "_", "T<(i32, i16)>", "T<[u8; 4]>", "T<dyn Tr>", "::m::T", "crate::T", "self::T", "super::T", "Self", "T<fn(i32)>", "m::T<i32>::U", "T<T<T<i32>>>", "T<i32,>", "T<>",
-    "T(i32) -> i32", "Fn(i32) -> i32", "m!()", "T<A = (B, C)>", "for<'a> fn(&'a i32)", "T<'a, 'a>", "unsafe extern \"C\" fn()",
+    "T(i32) -> i32", "Fn(i32) -> i32", "T<Fn(u8) -> u8>", "[T; { N }]", "T<[u8; { N }]>", "T<Y<W> = Z>", "T<Item: Clone>", "T<{ N + 1 }>", "T<{ m!() }>", "[u8; m!()]", "T<&'a str>", "m!()", "T<A = (B, C)>", "for<'a> fn(&'a i32)", "T<'a, 'a>", "unsafe extern \"C\" fn()",
 ];
 const WHERE_FORMS: &[&str] = &[
     "X: Clone", "X: Clone + Copy", "X: ?Sized", "X: 'static", "'a: 'b", "for<'a> X: Tr<'a>", "X: for<'a> Tr<'a>", "X: Tr<A = i32>", "X: m::Tr", "[X; 2]: Tr", "<X as Tr>::Y: Clone", "X: ~const Tr", "X: Clone,", "X: Clone, X: Copy",
@@ -303,6 +313,9 @@ pub fn form_is_well_formed(tags: &[String]) -> bool {
         },
         "as_type" | "error-type" | "child_parents-type" => syn2::parse_str::<syn2::Type>(form).is_ok(),
         "where_clause" => syn2::parse_str::<syn2::WhereClause>(&format!("where {}", form)).is_ok(),
+        // a member name, index or dotted path
+        "rename-member" | "ghosts-key" | "variant-rename" | "vars-name" | "parent-member" => syn2::parse_str::<syn2::Member>(form).is_ok(),
+        "child-path" => form.split('.').all(|p| syn2::parse_str::<syn2::Member>(p.trim()).is_ok()),
         // (a `let` expression is only meaningful inside a condition; syn 2 cannot parse a braced block as a struct-update base)
         _ => syn2::parse_str::<syn2::Expr>(form).map_or(false, |e| !matches!(e, syn2::Expr::Let(_))) && !(hole == "update-expr" && form.starts_with('{')),
     });
